@@ -58,6 +58,8 @@ inline std::string qualName(const NamedDecl *D) { return D->getQualifiedNameAsSt
 // parameter type list, for telling overloads apart
 std::string signatureOf(const FunctionDecl *FD);
 
+inline bool nameIs(const NamedDecl *D, llvm::StringRef n) { return D && D->getIdentifier() && D->getName() == n; }
+
 // ---- MEDDLY types -----------------------------------------------------------------------------
 // true if QT is (a reference to) MEDDLY::node_handle, decided through typedef sugar
 bool isNodeHandleType(QualType QT, bool &isRef);
